@@ -2,7 +2,7 @@
    Statements only; every proof is `exact <lemma>`.  Real-number reading
    (instance RNum e of the Num-polymorphic model; e stands for erf, unused here). *)
 From Coq Require Import Reals ZArith List Bool Lia Lra.
-From Sky Require Import Result PyList Num NumR G_stat M_Stat S_Stat P_Stat P_StatR P_StatTop.
+From Sky Require Import Result PyList Num NumR G_stat M_Stat S_Stat P_Stat P_StatR P_StatTop P_StatGamma.
 Import ListNotations.
 Open Scope R_scope.
 
@@ -170,6 +170,88 @@ Theorem C12_pval_counts : forall op ts t,
 Proof. exact pval_counts_char. Qed.
 Print Assumptions C12_pval_counts.
 
+(* ------------------------------------------------------------------ gamma-fit branch (at / above the switch) *)
+(* calculate_pval_from_gammafit_to_trials: threshold check, truncation to the
+   first n_max trials, THEN the tail selection; errors *)
+Theorem C12_gamma_counts : forall ts t eta m,
+  gammafit_counts ts t eta m =
+    let ts' := if (m <? zlen ts)%Z then py_slice ts 0 m else ts in
+    let tail := filter (fun x => (eta <? x)%Z) ts' in
+    if (t <? eta)%Z then Err ValueError
+    else if (zlen ts' =? 0)%Z then Err ZeroDivision
+    else Ok (zlen tail, zlen ts', tail).
+Proof. exact gammafit_counts_char. Qed.
+Print Assumptions C12_gamma_counts.
+
+(* the fitted survival function `sf eta tail x` (scipy minimize + gamma.sf) is an
+   oracle; contract: values in [0,1], positive at eta, non-increasing *)
+Theorem C12_gamma_range : forall e (sf : Z -> list Z -> Z -> R),
+  (forall eta l x, 0 <= sf eta l x <= 1) -> (forall eta l, 0 < sf eta l eta) ->
+  (forall eta l x y, (x <= y)%Z -> sf eta l y <= sf eta l x) ->
+  forall ts t eta m p s,
+  pval_gammafit (RNum e) sf ts t eta m = Ok (p, s) -> 0 <= p <= 1 /\ s = 0.
+Proof.
+  intros e sf H1 H2 H3 ts t eta m p s H.
+  exact (conj (conj (proj1 (proj1 (gamma_range e sf H1 H2 H3 ts t eta m p s H)))
+                    (proj1 (proj2 (gamma_range e sf H1 H2 H3 ts t eta m p s H))))
+              (proj2 (proj2 (gamma_range e sf H1 H2 H3 ts t eta m p s H)))).
+Qed.
+Print Assumptions C12_gamma_range.
+
+Theorem C12_gamma_mono : forall e (sf : Z -> list Z -> Z -> R),
+  (forall eta l x, 0 <= sf eta l x <= 1) -> (forall eta l, 0 < sf eta l eta) ->
+  (forall eta l x y, (x <= y)%Z -> sf eta l y <= sf eta l x) ->
+  forall ts t t' eta m p s p' s',
+  (t <= t')%Z ->
+  pval_gammafit (RNum e) sf ts t eta m = Ok (p, s) -> pval_gammafit (RNum e) sf ts t' eta m = Ok (p', s') -> p' <= p.
+Proof. intros e sf H1 H2 H3. exact (gamma_mono e sf H2 H3). Qed.
+Print Assumptions C12_gamma_mono.
+
+(* at the truncation threshold the value is the tail fraction of the (truncated) sample *)
+Theorem C12_gamma_at_eta : forall e (sf : Z -> list Z -> Z -> R),
+  (forall eta l, 0 < sf eta l eta) ->
+  forall ts eta m p s,
+  pval_gammafit (RNum e) sf ts eta eta m = Ok (p, s) ->
+  let ts' := if (m <? zlen ts)%Z then py_slice ts 0 m else ts in
+  p = IZR (zlen (filter (fun x => (eta <? x)%Z) ts')) / IZR (zlen ts').
+Proof. exact gamma_at_eta. Qed.
+Print Assumptions C12_gamma_at_eta.
+
+(* calculate_pval_from_trials_mixed with both branches: range for every input *)
+Theorem C12_mixed_range : forall e (sf : Z -> list Z -> Z -> R),
+  (forall eta l x, 0 <= sf eta l x <= 1) -> (forall eta l, 0 < sf eta l eta) ->
+  (forall eta l x y, (x <= y)%Z -> sf eta l y <= sf eta l x) ->
+  forall op ts t s eta m p sg,
+  pval_mixed_full (RNum e) sf op ts t s eta m = Ok (p, sg) -> 0 <= p <= 1.
+Proof. exact mixed_full_range. Qed.
+Print Assumptions C12_mixed_range.
+
+(* PARTIAL: non-increasing over the whole threshold axis (below, across and
+   above the switch) when the sample is not truncated and eta is the default *)
+Theorem C12_mixed_mono_partial : forall e (sf : Z -> list Z -> Z -> R),
+  (forall eta l x, 0 <= sf eta l x <= 1) -> (forall eta l, 0 < sf eta l eta) ->
+  (forall eta l x y, (x <= y)%Z -> sf eta l y <= sf eta l x) ->
+  forall op ts t t' s m p sg p' sg',
+  (zlen ts <= m)%Z -> (t <= t')%Z ->
+  pval_mixed_full (RNum e) sf op ts t s None m = Ok (p, sg) ->
+  pval_mixed_full (RNum e) sf op ts t' s None m = Ok (p', sg') -> p' <= p.
+Proof. exact mixed_full_mono. Qed.
+Print Assumptions C12_mixed_mono_partial.
+
+(* REFUTED without the guard: with more than n_max trials the gamma branch
+   normalises with the tail fraction of the first n_max trials, so the p-value
+   can increase when the threshold crosses the switch *)
+Theorem C12_mixed_mono_refuted : forall e,
+  exists (sf : Z -> list Z -> Z -> R) ts s m p sg p' sg',
+    (forall eta l x, 0 <= sf eta l x <= 1) /\ (forall eta l, 0 < sf eta l eta)
+    /\ (forall eta l x y, (x <= y)%Z -> sf eta l y <= sf eta l x)
+    /\ (m < zlen ts)%Z
+    /\ pval_mixed_full (RNum e) sf Greater ts 0%Z s None m = Ok (p, sg)
+    /\ pval_mixed_full (RNum e) sf Greater ts s s None m = Ok (p', sg')
+    /\ (0 <= s)%Z /\ p < p'.
+Proof. exact mixed_full_refuted. Qed.
+Print Assumptions C12_mixed_mono_refuted.
+
 (* ------------------------------------------------------------------ polynomial inversion (np.polyfit = oracle `polyfit`) *)
 Theorem C12_poly_deg1 : forall e polyfit p x,
   polynomial_fit (RNum e) polyfit 1%Z p = Ok x ->
@@ -216,7 +298,10 @@ Example C12_nonvacuous_discrete :
   /\ pval_counts Greater [4]%Z 4%Z = Ok (0, 1)%Z
   /\ pval_mixed GreaterEqual [4; 0; 4; 9; 0; 4]%Z 4%Z 5%Z None 500000%Z = Ok (ByTrials 4 6)
   /\ pval_mixed GreaterEqual [4; 0; 4; 9; 0; 4]%Z 5%Z 5%Z None 500000%Z = Ok (ByGammaFit 5 5 500000)
-  /\ bind_ok sig_MultiDatasetTCLLHRatio [K_ns; K_ns_pidx; K_src_params_recarray; K_tl] = true.
+  /\ bind_ok sig_MultiDatasetTCLLHRatio [K_ns; K_ns_pidx; K_src_params_recarray; K_tl] = true
+  /\ gammafit_counts [5; 0; 7; 0; 9; 1]%Z 4%Z 1%Z 4%Z = Ok (2, 4, [5; 7])%Z
+  /\ gammafit_counts [5; 0; 7; 0; 9; 1]%Z 0%Z 1%Z 4%Z = Err ValueError
+  /\ gammafit_counts [5; 0; 7]%Z 4%Z 1%Z 0%Z = Err ZeroDivision.
 Proof. repeat split; vm_compute; reflexivity. Qed.
 
 (* hypotheses of C12_ts0 / C12_poly_deg2 are satisfiable: a = 3, b = -2 gives
